@@ -12,7 +12,10 @@ namespace Session
 open Proto
 
 def parseAct (s : String) : Option (List Act) :=
-  if s == "s1" then some [.send true] else if s == "s0" then some [.send false]
+  -- `s2`: the transport reports an error after the request reached the server; for the client this is
+  -- the same as any failed `rpc()`: the id is consumed and nothing is registered (the server's answer
+  -- to it arrives as a reply with an id nobody waits for)
+  if s == "s1" then some [.send true] else if s == "s0" then some [.send false] else if s == "s2" then some [.send false]
   else if s == "g1" then some [.gate true] else if s == "g0" then some [.gate false]
   else if s == "c" then some [.close]
   else if s.startsWith "p" then ((s.drop 1).toString.toNat?).map fun f => [.poll f]
